@@ -15,6 +15,7 @@ import (
 	"encoding/json"
 	"fmt"
 	"io"
+	"net/http"
 	"testing"
 	"time"
 
@@ -195,6 +196,65 @@ func runC04Plain(transport string, kinds []string) *Violation {
 	return nil
 }
 
+// http transport under connection faults: the library (and the http stack it configures) must not re-send
+type c04HTTPFault struct {
+	HTTPFault string `json:"http_fault"` // fin | rst
+	Warm      int    `json:"warm"`       // successful calls before (so that a keep-alive connection is reused)
+	Kind      string `json:"kind"`       // call | notify | noctx
+	When      string `json:"when"`       // running (cut while the handler runs) | early (cut right after issuing)
+	Size      int    `json:"size,omitempty"`
+}
+
+func runC04HTTPFault(c c04HTTPFault) *Violation {
+	rig, err := NewRig(RigOpts{})
+	if err != nil {
+		return nil
+	}
+	defer rig.Close()
+	tr := &http.Transport{MaxIdleConnsPerHost: 4}
+	defer tr.CloseIdleConnections()
+	cl, err := rig.NewHTTPClientVia("h", rig.Proxy.Addr(), &http.Client{Transport: tr})
+	if err != nil {
+		return nil
+	}
+	for i := 0; i < c.Warm; i++ {
+		if err := rig.Probe(cl, 3*time.Second); err != nil {
+			return nil
+		}
+	}
+	tok := rig.Tok(c.Kind)
+	p := rig.Go(cl, c.Kind, tok, Plan{Gate: true, Size: c.Size})
+	if c.When == "running" {
+		rig.W.WaitStarted(tok, 2*time.Second)
+	}
+	rig.Proxy.CutAll(c.HTTPFault)
+	time.Sleep(2 * time.Millisecond)
+	rig.W.Release(tok)
+	select {
+	case <-p.Done:
+	case <-time.After(5 * time.Second):
+		return violf("http-call-hangs", "http %s did not return within 5s after its connection was cut", c.Kind)
+	}
+	// a replayed request would start a second execution shortly after the cut
+	deadline := time.Now().Add(150 * time.Millisecond)
+	for time.Now().Before(deadline) && rig.W.Started(tok) < 2 {
+		time.Sleep(time.Millisecond)
+	}
+	n := rig.W.Started(tok)
+	if n > 1 {
+		return violf("executed-more-than-once", "http %s %s executed %d times after its connection was cut (%s, %d warm-up calls); caller got err=%v", c.Kind, tok, n, c.When, c.Warm, p.Err)
+	}
+	if p.Err == nil && c.Kind != "notify" {
+		if v := p.CheckOwn(); v != nil {
+			return v
+		}
+		if n != 1 {
+			return violf("answer-without-execution", "http %s got an answer but executed %d times", c.Kind, n)
+		}
+	}
+	return nil
+}
+
 func c04NT(c fsCase) (bool, []string) {
 	_, cl := fsClasses(c)
 	inflight := false
@@ -222,7 +282,7 @@ func TestC04(t *testing.T) {
 	rec := NewRec("C04", c04Rule)
 	defer rec.Finish(t)
 	rec.EnableJournal()
-	rec.RequireClass("inflight_at_fault", "has_notification", "no_fault", "kind_fin", "kind_rst", "has_retry", "plain_http", "plain_custom")
+	rec.RequireClass("http_fault", "inflight_at_fault", "has_notification", "no_fault", "kind_fin", "kind_rst", "has_retry", "plain_http", "plain_custom")
 
 	run := func(ft failer, c fsCase) {
 		nt, cl := c04NT(c)
@@ -268,6 +328,14 @@ func TestC04(t *testing.T) {
 				}
 			}
 		}
+		for _, kind := range []string{"call", "notify", "noctx"} {
+			for _, when := range []string{"running", "early"} {
+				for warm := 0; warm <= 2; warm++ {
+					hc := c04HTTPFault{HTTPFault: []string{"fin", "rst"}[warm%2], Warm: warm, Kind: kind, When: when, Size: warm * 3000}
+					rec.Run(t, hc, true, []string{"http_fault", "inflight_at_fault"}, func() *Violation { return runC04HTTPFault(hc) })
+				}
+			}
+		}
 		for i := 0; i < scale(3, 10); i++ {
 			for _, tr := range []string{"http", "custom"} {
 				tr := tr
@@ -304,6 +372,11 @@ func TestC04Replay(t *testing.T) {
 	Replay(t, "C04", 10, func(raw json.RawMessage) *Violation {
 		var probe map[string]json.RawMessage
 		_ = json.Unmarshal(raw, &probe)
+		if _, ok := probe["http_fault"]; ok {
+			var hc c04HTTPFault
+			_ = json.Unmarshal(raw, &hc)
+			return runC04HTTPFault(hc)
+		}
 		if tr, ok := probe["plain_transport"]; ok {
 			var s string
 			_ = json.Unmarshal(tr, &s)
